@@ -389,6 +389,13 @@ func (p *service) processUnsubscribe(msg *message.UnsubscribeMessage) error {
 // the ack cycle. This method will get the list of subscribers based on the publish
 // topic, and publishes the message to the list of subscribers.
 func (p *service) onPublish(msg *message.PublishMessage) error {
+	// The DUP flag of an incoming PUBLISH is not propagated to the
+	// subscribers (MQTT-3.3.1-3); with a QoS 0 subscription it would make
+	// the forwarded packet malformed (MQTT-3.3.1-2).
+	if !p.client && msg.Dup() {
+		msg.SetDup(false)
+	}
+
 	if msg.Retain() {
 		// Retain makes a copy of msg.
 		if err := p.topicsMgr.Retain(msg); err != nil {
